@@ -2,13 +2,14 @@
 Driver for C30. One case = one payload / chunking / streaming mode / trailer algorithm / server
 configuration (`conf 1` = credentials configured, `conf 0` = none): the upload `base` and its
 single-point mutants, each sent as PUT through the complete server (`server.SetupServer`) and
-followed by a read-back (`stored <label> <0 absent|1 present|2 read-back failed> <content>`).
+followed by a read-back (`stored <label> <0 absent|1 present|2 read-back failed> <content>`);
+`orig <label> <body>` is the framed body before the single-point mutation was applied.
 
 tie: the Lean model (`predict` for the signature middleware, `Chunked.storedBody` for the
   configuration without credentials) says what must be stored; it must be what was read back.
 judge (the property itself, independent of the model's verdict):
   * base upload: the stored bytes are exactly the payload the client framed;
-  * a mutant whose changed byte lies — located here, on the base body — in a chunk's data, a chunk
+  * a mutant whose changed byte lies — located here, on the unmutated body — in a chunk's data, a chunk
     signature, the trailer signature or the trailer checksum, and which the configuration can
     detect (signatures need the credentials; a checksum trailer needs no key): the request fails
     and nothing is stored;
@@ -92,6 +93,12 @@ def parseStored (l : String) : Option Stored :=
   | ["stored", label, st, c] => some ⟨label, st.toNat!, hx c⟩
   | _ => none
 
+/-- `orig <label> <body before the mutation>` -/
+def parseOrig (l : String) : Option Bytes :=
+  match tokens l with
+  | ["orig", _, c] => some (hx c)
+  | _ => none
+
 /-- behaviour of the tree after fixes/C30-decode-aws-chunked-without-auth.patch?
 FLIP to `true` once that patch is committed to /repo. -/
 def c30Fixed : Bool := false
@@ -122,18 +129,18 @@ def judgeCase (_k : Nat) (lines : List String) : Verdict := Id.run do
   let reqLines := lines.filter (fun l => match tokens l with
     | "conf" :: _ => false
     | "stored" :: _ => false
+    | "orig" :: _ => false
     | _ => true)
+  let origs := lines.filterMap parseOrig
   let some (ccfg, recs) := parseCase reqLines | return { diverge := ["unparsable-trace"] }
-  if recs.length != storedLines.length then return { diverge := ["records-and-read-backs-differ"] }
+  if recs.length != storedLines.length || recs.length != origs.length then
+    return { diverge := ["records-and-read-backs-differ"] }
   let mut div : List String := []
   let mut vio : List (String × String) := []
   let mut stats : List (String × Nat) := []
   let mut fp : UInt64 := 7
-  let baseBody : Bytes := match recs.head? with
-    | some rc => (rc.view.map (·.body)).getD []
-    | none => []
   let mut nontrivial := false
-  for (rc, sd) in recs.zip storedLines do
+  for ((rc, sd), baseBody) in (recs.zip storedLines).zip origs do
     let cfg : Config := { creds := ccfg.creds, region := ccfg.region, now := rc.now }
     let conf := if authOn then "auth-on" else "auth-off"
     stats := addStats stats [("uploads", 1), (conf ++ "_" ++ rc.mode, 1)]
